@@ -61,40 +61,183 @@ func sumClass(s string) string {
 	return ">=100"
 }
 
-// checkSer runs the oracle of property prop on one message; it returns false if an unknown
-// violation was recorded.
+// checkSer runs the oracle of property prop on one message, and then (C01, C17) on the same live
+// message object after each of a sequence of in-place mutations through the public mutators
+// (Value.Set, FromBytes, KeyValue.Set, Set(nil), Group.AddEntry): "every message the library
+// serializes" includes the second and third serialisation of an updated message.
 func checkSer(R *vlib.Out, prop string, t *tmpl, hp, bp, tp []*pop) {
 	R.Eval()
 	rp := serReplay{t, hp, bp, tp}
-	m := t.message(hp, bp, tp)
+	var m *fix.Message
+	if pan := safely(func() { m = t.messageMode(hp, bp, tp, buildMode(t, bp)) }); pan != "" {
+		R.Violate("panic-building-message", pan+" "+describe(t), rp)
+		return
+	}
+	if !checkBytes(R, prop, t, hp, bp, tp, m, rp, "") {
+		return
+	}
+	if prop == "C02" || t.Gen != "" {
+		return
+	}
+	// ---- mutation phase: cumulative in-place updates, re-serialised and re-checked after each ----
+	hp, bp, tp = clonePops(hp), clonePops(bp), clonePops(tp)
+	var ls []liveRef
+	liveLeaves(t.Hdr, hp, m.Header().Items(), false, &ls)
+	liveLeaves(t.Body, bp, m.Body(), false, &ls)
+	for j, l := range ls {
+		if j >= 4 {
+			break
+		}
+		kind := (j + len(ls) + t.Unit) % 4
+		alt := altVal[l.n.Typ]
+		if l.p.Val == alt {
+			alt = defVal[l.n.Typ]
+		}
+		stage := ""
+		pan := safely(func() {
+			switch kind {
+			case 0:
+				stage = "Value.Set"
+				if err := l.kv.Value.Set(decode(l.n.Typ, alt)); err != nil {
+					panic(err)
+				}
+				l.p.Val, l.p.Route = alt, 's'
+			case 1:
+				stage = "FromBytes"
+				if err := l.kv.FromBytes([]byte(alt)); err != nil {
+					panic(err)
+				}
+				l.p.Val, l.p.Route = alt, 'p'
+			case 2:
+				stage = "KeyValue.Set"
+				np := &pop{Set: true, Val: alt, Route: 'c'}
+				l.kv.Set(mkVal(l.n.Typ, np))
+				l.p.Val, l.p.Route = alt, 'c'
+			case 3:
+				if l.inGroup || l.n.Typ == "Raw" { // Raw.Set has no nil form
+					stage = "Value.Set"
+					if err := l.kv.Value.Set(decode(l.n.Typ, alt)); err != nil {
+						panic(err)
+					}
+					l.p.Val, l.p.Route = alt, 's'
+				} else {
+					stage = "Set(nil)"
+					if err := l.kv.Value.Set(nil); err != nil {
+						panic(err)
+					}
+					l.p.Set = false
+				}
+			}
+		})
+		if pan != "" {
+			R.Violate("panic-in-mutator:"+stage, pan+" "+describe(t), rp)
+			return
+		}
+		R.Eval()
+		R.Count("mutation:" + stage + "/was-route-" + string(l.wasRoute))
+		if !checkBytes(R, prop, t, hp, bp, tp, m, rp, "after:"+stage+"(was "+string(l.wasRoute)+"):") {
+			return
+		}
+	}
+	// one more entry for the first populated body-level group
+	for i, n := range t.Body {
+		if n.Kind == 'g' && len(bp[i].Entries) > 0 {
+			g := m.Body()[i].(*fix.Group)
+			e := clonePops(bp[i].Entries[0])
+			if pan := safely(func() { g.AddEntry(buildItems(n.Kids, e)) }); pan != "" {
+				R.Violate("panic-in-mutator:AddEntry", pan, rp)
+				return
+			}
+			bp[i].Entries = append(bp[i].Entries, e)
+			R.Eval()
+			R.Count("mutation:AddEntry")
+			checkBytes(R, prop, t, hp, bp, tp, m, rp, "after:AddEntry:")
+			break
+		}
+	}
+}
+
+func safely(f func()) (pan string) {
+	defer func() {
+		if r := recover(); r != nil {
+			pan = fmt.Sprint(r)
+		}
+	}()
+	f()
+	return
+}
+
+// alternate values of a different length than the defaults (so that a stale length shows)
+var altVal = map[string]string{
+	"String": "bb=c", "Int": "-10", "Uint": "18446744073709551615", "Float": "-0.001", "Time": "20240229-12:00:00.001", "Bool": "N", "Raw": "rr=1",
+}
+
+type liveRef struct {
+	n        *node
+	p        *pop
+	kv       *fix.KeyValue
+	inGroup  bool
+	wasRoute byte
+}
+
+// liveLeaves pairs every populated leaf of the population with the library's live KeyValue.
+func liveLeaves(f []*node, ps []*pop, items fix.Items, inGroup bool, out *[]liveRef) {
+	for i, t := range f {
+		switch t.Kind {
+		case 'k':
+			if ps[i].Set {
+				*out = append(*out, liveRef{t, ps[i], items[i].(*fix.KeyValue), inGroup, ps[i].Route})
+			}
+		case 'c':
+			liveLeaves(t.Kids, ps[i].Kids, items[i].(*fix.Component).Items(), inGroup, out)
+		case 'g':
+			g := items[i].(*fix.Group)
+			for k, e := range ps[i].Entries {
+				liveLeaves(t.Kids, e, g.Entries()[k], true, out)
+			}
+		}
+	}
+}
+
+// buildMode selects how group entries are assembled: 0 populate-then-AddEntry, 1 AddEntry of an
+// empty entry then fill through the values' Set/FromBytes, 2 AddEntry then replace the entry's
+// slots through Component.Set (what the generated entry wrappers do).
+func buildMode(t *tmpl, bp []*pop) int {
+	if t.Gen != "" {
+		return 0
+	}
+	return (t.Unit + len(popKey(bp))) % 3
+}
+
+// checkBytes serialises the live message and applies the property's oracle for the population.
+func checkBytes(R *vlib.Out, prop string, t *tmpl, hp, bp, tp []*pop, m *fix.Message, rp serReplay, stage string) bool {
 	out, err, pan := safeToBytes(m)
 	if pan != "" {
-		R.Violate("panic-in-ToBytes", pan+" "+describe(t), rp)
-		return
+		R.Violate(stage+"panic-in-ToBytes", pan+" "+describe(t), rp)
+		return false
 	}
 	if err != nil {
-		R.Violate("ToBytes-error", err.Error()+" "+describe(t), rp)
-		return
+		R.Violate(stage+"ToBytes-error", err.Error()+" "+describe(t), rp)
+		return false
 	}
 	fs, ok := tokenize(out)
-	_ = fs
 	switch prop {
 	case "C01":
 		if d := integrity(out, t.BS, t.BL, t.MT, t.CS, true); d != "" {
-			R.Violate(d, vlib.Show(out)+"  "+describe(t), rp)
-			return
+			R.Violate(stage+d, vlib.Show(out)+"  "+describe(t), rp)
+			return false
 		}
 		bl, cs := framingVals(out)
-		R.ClassD(unitKey(t) + typedKey(t.Body) + "/" + popKey(bp) + "/" + popKey(hp) + popKey(tp) + "/" + lenClass(atoiSafe(bl)) + "/" + sumClass(cs))
+		R.ClassD(unitKey(t) + typedKey(t.Body) + "/" + popKey(bp) + "/" + popKey(hp) + popKey(tp) + "/" + lenClass(atoiSafe(bl)) + "/" + sumClass(cs) + stage)
 		R.Outcome("len" + lenClass(atoiSafe(bl)) + " sum" + sumClass(cs))
-		R.Sample(4, map[string]string{"template": describe(t), "bytes": vlib.Show(out)})
+		R.Sample(4, map[string]string{"template": describe(t), "bytes": vlib.Show(out), "stage": stage})
 	case "C17":
 		if !ok {
 			fs = tokenizeLenient(out)
 		}
 		if len(fs) < 4 {
-			R.Violate("too-few-fields", vlib.Show(out), rp)
-			return
+			R.Violate(stage+"too-few-fields", vlib.Show(out), rp)
+			return false
 		}
 		var exp, expNoTrl []field
 		refFields(t.Hdr, hp, &exp)
@@ -104,17 +247,24 @@ func checkSer(R *vlib.Out, prop string, t *tmpl, hp, bp, tp []*pop) {
 		got := fs[3 : len(fs)-1]
 		if fieldsStr(got) != fieldsStr(exp) {
 			sig := c17sig(t, hp, bp, tp, got, exp, expNoTrl)
-			R.Violate(sig, fmt.Sprintf("wire=%s expected-fields=%s %s", vlib.Show(out), fieldsStr(exp), describe(t)), rp)
-			return
+			known := R.Violate(withStage(stage, sig), fmt.Sprintf("%s wire=%s expected-fields=%s %s", stage, vlib.Show(out), fieldsStr(exp), describe(t)), rp)
+			return known // judged modulo a known loss, the sequence may continue
 		}
-		R.ClassD(unitKey(t) + typedKey(t.Body) + "/" + popKey(bp) + "/" + popKey(hp) + popKey(tp) + "/" + routeKey(hp, bp, tp))
+		R.ClassD(unitKey(t) + typedKey(t.Body) + "/" + popKey(bp) + "/" + popKey(hp) + popKey(tp) + "/" + routeKey(hp, bp, tp) + stage)
 		R.Outcome(fmt.Sprintf("fields=%d", len(got)))
-		R.Sample(4, map[string]string{"template": describe(t), "bytes": vlib.Show(out), "expected_fields": fieldsStr(exp)})
+		R.Sample(4, map[string]string{"template": describe(t), "bytes": vlib.Show(out), "expected_fields": fieldsStr(exp), "stage": stage})
 	case "C02":
-		// the statement's domain: what was serialised is what the population says (C17's business);
-		// if the wire image already lacks a populated field the round trip is judged on the rest
 		checkRoundTrip(R, t, hp, bp, tp, out, rp)
 	}
+	return true
+}
+
+// withStage keeps known signatures stable (a known loss is the same finding at every stage).
+func withStage(stage, sig string) string {
+	if vlib.Known(sig) {
+		return sig
+	}
+	return stage + sig
 }
 
 func atoiSafe(s string) int {
@@ -325,7 +475,10 @@ func wireAdjust(t *tmpl, hp, bp, tp []*pop, fs []field) (h, b, tr []*pop, lost i
 	refFields(t.Hdr, h, &exp)
 	refFields(t.Body, b, &exp)
 	refFields(t.Trl, tr, &exp)
-	if len(fs) >= 4 && fieldsStr(fs[3:len(fs)-1]) == fieldsStr(exp) {
+	// only the *presence and order* of the fields matters here: a populated field that is missing
+	// from the wire is C17's finding; a field that is present with a different text is judged by
+	// the round trip itself (the parsed value must equal the value that was set)
+	if len(fs) >= 4 && tagsStr(fs[3:len(fs)-1]) == tagsStr(exp) {
 		return h, b, tr, 0
 	}
 	return nil, nil, nil, 1
@@ -524,3 +677,11 @@ func touchesDupTags(t *tmpl, hp, bp, tp []*pop) bool {
 // unitKey identifies the work unit a template belongs to (work units are partitioned among shards,
 // so class keys that contain it are shard-disjoint).
 func unitKey(t *tmpl) string { return fmt.Sprintf("u%d/%s/", t.Unit, t.Gen) }
+
+func tagsStr(fs []field) string {
+	var b bytes.Buffer
+	for _, f := range fs {
+		b.WriteString(f.Tag + "|")
+	}
+	return b.String()
+}
